@@ -189,6 +189,10 @@ def init_rule(ctx):
                 okc = inc == [T.add(cnt, nv)]
             ctx.decide(okc, "C10.init", construct, loc, "the drawn counter grows by the number of kept rows",
                        f"counter update is {T.show(cb)[:160] if cb else None}", disc="counter")
+        # what is tested for finiteness is what is stored: every dtype-narrowing conversion on the way to the stored log_prior is also on the way to the tested
+        # value.  A float64 prior value beyond float32's range is finite before array_to_namespace() and -inf after it; a mask computed before the cast lets
+        # such a draw into the population with a non-finite stored prior.  (Value numbers cannot tell the two apart: conversions preserve real values.)
+        _casts_rule(ctx, di, lp["node"])
         # trim and likelihood on the returned set
         leaves = list(T.phi_leaves(ret))
         rl = ev.events
@@ -210,6 +214,59 @@ def init_rule(ctx):
             ctx.decide(okr, "C10.init", construct, loc_of(di, lk[0].node), "the likelihood of the final set is stored on it and that set is returned",
                        "the returned set is not the one whose likelihood was evaluated and stored", disc="final")
 
+
+
+DTYPE_CASTS = ("array_to_namespace", "astype", "to", "type")
+PASS_THROUGH = ("asarray", "array", "copy_array", "safe_to_device", "to_device", "atleast_1d", "copy", "clone", "detach")
+
+
+def _casts_rule(ctx, di, loop_node):
+    body = [n for n in walk_no_nested(di.node) if isinstance(n, ast.Assign)]
+
+    def last_def(pred, before):
+        c = [a for a in body if a.lineno < before and any(pred(t) for t in a.targets)]
+        return max(c, key=lambda a: a.lineno) if c else None
+
+    def casts(e, at, depth=0):
+        """-> set of dtype-casting call names applied between the prior's result and *e* (read at line *at*)."""
+        if depth > 8:
+            return set()
+        if isinstance(e, ast.Call):
+            nm = e.func.attr if isinstance(e.func, ast.Attribute) else getattr(e.func, "id", "")
+            inner = None
+            if nm in DTYPE_CASTS:
+                inner = e.args[0] if nm == "array_to_namespace" and e.args else (e.func.value if isinstance(e.func, ast.Attribute) else None)
+                if nm == "to" and not e.args and not e.keywords:
+                    nm = None
+            elif nm in PASS_THROUGH:
+                inner = e.args[0] if e.args else (e.func.value if isinstance(e.func, ast.Attribute) else None)
+                if any(k.arg == "dtype" for k in e.keywords):
+                    nm = "asarray(dtype=)"
+                else:
+                    nm = None
+            else:
+                return set()
+            return ({nm} if nm else set()) | (casts(inner, at, depth + 1) if inner is not None else set())
+        if isinstance(e, ast.Name):
+            d = last_def(lambda t: isinstance(t, ast.Name) and t.id == e.id, at)
+            return casts(d.value, d.lineno, depth + 1) if d is not None else set()
+        if isinstance(e, ast.Attribute) and isinstance(e.value, ast.Name):
+            d = last_def(lambda t: isinstance(t, ast.Attribute) and t.attr == e.attr and isinstance(t.value, ast.Name) and t.value.id == e.value.id, at)
+            return casts(d.value, d.lineno, depth + 1) if d is not None else set()
+        return set()
+
+    stores = [a for a in body if any(isinstance(t, ast.Attribute) and t.attr == "log_prior" for t in a.targets) and loop_node.lineno <= a.lineno <= loop_node.end_lineno]
+    tests = [n for n in walk_no_nested(di.node) if isinstance(n, ast.Call) and isinstance(n.func, ast.Attribute) and n.func.attr == "isfinite" and n.args
+             and loop_node.lineno <= n.lineno <= loop_node.end_lineno]
+    if len(stores) != 1 or len(tests) != 1:
+        ctx.unknown("C10.init", di.ident, loc_of(di, loop_node), f"expected one log_prior store and one finiteness test per round, found {len(stores)}/{len(tests)}", disc="tested-is-stored")
+        return
+    st_c = casts(stores[0].value, stores[0].lineno)
+    te_c = casts(tests[0].args[0], tests[0].lineno)
+    ctx.decide(st_c <= te_c, "C10.init", di.ident, loc_of(di, tests[0]),
+               f"the finiteness mask is computed on the prior values as they are stored (conversions on the stored value: {sorted(st_c)}; on the tested value: {sorted(te_c)})",
+               f"the stored log_prior went through {sorted(st_c - te_c)} but the value tested for finiteness did not: the conversion casts to the sample set's dtype, and a finite float64 prior "
+               "value beyond float32's range becomes -inf there, so a draw can pass the mask and enter the initial population with a non-finite stored prior", disc="tested-is-stored")
 
 
 def rest_rules(ctx):
@@ -557,6 +614,11 @@ MUTANTS += [
       "for name in [\"log_likelihood\"] + ([\"log_prior\"] if self.parallelize_prior else []):\n                original = getattr(self.aspire_instance, name)\n                setattr(self.aspire_instance, name, lambda samples, **kw: original(samples, map_fn=self.pool.map, **kw))", "C10.pool"),
 ]
 
+MUTANTS += [
+    M("finiteness tested before the cast to the sample dtype", "src/aspire/samplers/mcmc.py", "new_samples.log_prior = new_samples.array_to_namespace(\n                self.log_prior(new_samples)\n            )\n            valid = self.xp.isfinite(new_samples.log_prior)",
+      "lp = self.log_prior(new_samples)\n            valid = self.xp.isfinite(self.xp.asarray(lp))\n            new_samples.log_prior = new_samples.array_to_namespace(lp)", "C10.init"),
+]
+
 NEUTRALS = [
     __import__("aspire_sa.rules.smcloop", fromlist=["HELPER_NEUTRAL"]).HELPER_NEUTRAL,
     M("bounded step through a private helper that writes into the caller's working copy", _T, "y, log_j_bounded = self._bounded_transform.forward(\n                x[..., self.bounded_mask]\n            )\n            x = update_at_indices(x, (slice(None), self.bounded_mask), y)\n            log_abs_det_jacobian += log_j_bounded", "x, log_j_bounded = self._put_bounded(x, self._bounded_transform.forward)\n            log_abs_det_jacobian += log_j_bounded",
@@ -567,6 +629,8 @@ NEUTRALS = [
     M("enlargement whenever a final size is requested", "src/aspire/samplers/smc/base.py", "if n_final_samples is not None and len(samples.x) != n_final_samples:", "if n_final_samples is not None:"),
     M("forward copies through a temporary", _T, "x = copy_array(x, xp=self.xp)\n        x = self.xp.atleast_2d(x)\n        log_abs_det_jacobian = self.xp.zeros(\n            len(x), device=self.device, dtype=self.dtype\n        )\n        if self.periodic_parameters:",
       "x2 = copy_array(x, xp=self.xp)\n        x = self.xp.atleast_2d(x2)\n        log_abs_det_jacobian = self.xp.zeros(\n            len(x), device=self.device, dtype=self.dtype\n        )\n        if self.periodic_parameters:"),
+    M("initial population: prior converted once, stored and tested through one temporary", "src/aspire/samplers/mcmc.py", "new_samples.log_prior = new_samples.array_to_namespace(\n                self.log_prior(new_samples)\n            )\n            valid = self.xp.isfinite(new_samples.log_prior)",
+      "lp = new_samples.array_to_namespace(self.log_prior(new_samples))\n            new_samples.log_prior = lp\n            valid = self.xp.isfinite(lp)"),
     M("minipcn: log_q via temporary", _MP, "samples.log_q = samples.array_to_namespace(\n            self.prior_flow.log_prob(samples.x)\n        )", "lq = self.prior_flow.log_prob(samples.x)\n        samples.log_q = samples.array_to_namespace(lq)"),
     M("initial: guard mirrored", _MC, "while n_samples_drawn < n_samples:", "while n_samples > n_samples_drawn:"),
     M("initial: counter explicit", _MC, "n_samples_drawn += n_valid", "n_samples_drawn = n_valid + n_samples_drawn"),
